@@ -520,13 +520,13 @@ pub fn run(depth: usize, max_cap: usize, max_fail: usize, threads: usize) -> Str
     for (k, c, h) in samples.iter() {
         let (m, v) = execute(*k, *c, h);
         ss.push(format!(
-            "{{\"kind\":\"{:?}\",\"cap0\":{},\"ops\":\"{:?}\",\"final_content\":{:?},\"failed\":{},\"violation\":\"{:?}\"}}",
+            "{{\"kind\":\"{:?}\",\"cap0\":{},\"ops\":\"{:?}\",\"final_content\":{:?},\"failed\":{},\"violation\":{}}}",
             k,
             c,
             h,
             String::from_utf8_lossy(&m.content),
             m.failed,
-            v
+            v.is_some()
         ));
     }
     write!(
